@@ -348,7 +348,10 @@ class IterV:
 
 
 class GenV:
-    """Generator: evaluated eagerly to its yielded trace at first consumption."""
+    """Generator.  Its body runs in a thread of its own that is handed control for exactly one step at a time (no two threads
+    ever run together): the code between two yields runs when the consumer asks for the next element, as in CPython, so a
+    consumer that changes state between two elements - or stops early - sees what it would see there.  `trace` holds the elements
+    produced so far, `pos` how many of them were consumed."""
 
     def __init__(self, func, frame):
         self.func, self.frame = func, frame
@@ -356,6 +359,28 @@ class GenV:
         self.exc = None
         self.ret = None
         self.pos = 0
+        self.done = False
+        self.thread = None
+        self.to_gen = self.to_cons = None
+        self.event = None
+        self.inner_depth = 0
+        self.resume_depth = 0
+
+
+class _GenClose(BaseException):
+    pass
+
+
+class EnumInt(int):
+    """a member of an enum.IntEnum class: an int in every respect, with .name / .value and its class"""
+
+    def __new__(cls, value, name, enum_cls):
+        o = int.__new__(cls, value)
+        o.enum_name, o.enum_cls = name, enum_cls
+        return o
+
+    def __repr__(self):
+        return f"<{self.enum_cls.name}.{self.enum_name}: {int(self)}>"
 
 
 class ModuleV:
@@ -505,6 +530,19 @@ _ATOMS = (Obj, ClassV, Opaque, Func, Bound, Builtin, Callback, ExtV, ModuleV, Se
 
 
 MODELLED_EXTERN_BASES = {"enum.Enum", "enum.IntEnum", "enum.StrEnum", "dill.Pickler", "pickle.Pickler", "pickle._Pickler", "abc.ABC", "typing.Generic", "typing.Protocol"}
+
+
+_THREAD_STACK_SET = [False]
+
+
+def _ensure_thread_stack():
+    if not _THREAD_STACK_SET[0]:
+        import threading
+        try:
+            threading.stack_size(32 * 1024 * 1024)     # the interpreter recurses deeply; generator bodies run in threads
+        except (ValueError, RuntimeError):
+            pass
+        _THREAD_STACK_SET[0] = True
 
 
 def id_slot(o):
@@ -659,11 +697,12 @@ class UndecidedCond(Unknown):
 
 # ----------------------------------------------------------------------------- frames
 class Frame:
-    __slots__ = ("module", "locals", "cls", "self_obj", "func", "env", "yields", "is_class", "globals_decl", "nonlocal_decl", "cur_exc", "lineno")
+    __slots__ = ("module", "locals", "cls", "self_obj", "func", "env", "yields", "is_class", "globals_decl", "nonlocal_decl", "cur_exc", "lineno", "gen")
 
     def __init__(self, module, locals_, cls=None, self_obj=None, func=None, env=None, is_class=False):
         self.module, self.locals, self.cls, self.self_obj, self.func, self.env = module, locals_, cls, self_obj, func, env
         self.yields = None
+        self.gen = None
         self.is_class = is_class
         self.globals_decl = None
         self.nonlocal_decl = None
@@ -1022,6 +1061,19 @@ class Interp:
                 i += 1
                 yield x
             return
+        if isinstance(v, GenV):
+            while True:
+                if v.trace is not None and v.pos < len(v.trace):
+                    x = v.trace[v.pos]
+                    v.pos += 1
+                    yield x
+                    continue
+                if not self.gen_step(v):
+                    break
+            if v.exc is not None:
+                exc, v.exc = v.exc, None
+                raise exc
+            return
         items = self.iterate(v)
         if isinstance(v, (DictV, SetV)) and not isinstance(v, LiveDictV):
             size = (lambda: len(v.pairs)) if isinstance(v, DictV) else (lambda: len(v.items))
@@ -1182,8 +1234,18 @@ class Interp:
         iterable over its members in definition order and callable with a value."""
         B = self.w.B
         members = []
+        is_int = any(getattr(b, "extern", False) and getattr(b, "qual", "") == "enum.IntEnum" for b in c.mro)
         for k, v in list(c.dict.items()):
             if k.startswith("_") or isinstance(v, (Func, Prop, ClassMethod, StaticMethod, Builtin, ClassV)):
+                continue
+            if is_int:
+                if not isinstance(v, int) or isinstance(v, bool):
+                    raise Unknown("IntEnum member with a non-integer value")
+                m = next((x for x in members if int(x) == v), None)
+                if m is None:
+                    m = EnumInt(v, k, c)
+                    members.append(m)
+                c.dict[k] = m
                 continue
             m = next((x for x in members if keq(x.fields["_value_"], v)), None)     # an alias of an earlier member
             if m is None:
@@ -1196,7 +1258,7 @@ class Interp:
 
         def construct(I, cls, value=MISSING, *a, **k):
             for m in cls.dict.get("_enum_members_", []):
-                if I.eq(m.fields["_value_"], value):
+                if (isinstance(m, EnumInt) and isinstance(value, int) and int(m) == value) or (not isinstance(m, EnumInt) and I.eq(m.fields["_value_"], value)):
                     return m
             raise Raised(B.mkexc("ValueError", f"{value!r} is not a valid {cls.name}"))
         c.dict["__construct__"] = Builtin(c.name + ".__call__", construct)
@@ -1388,6 +1450,16 @@ class Interp:
 
     def _getattr(self, o, name):
         B = self.w.B
+        if isinstance(o, EnumInt):
+            if name in ("name", "_name_"):
+                return o.enum_name
+            if name in ("value", "_value_"):
+                return int(o)
+            if name == "__class__":
+                return o.enum_cls
+            d, owner = o.enum_cls.lookup(name)
+            if d is not None and not owner.builtin:
+                return self._bind(d, o, o.enum_cls)
         uc = getattr(o, "ucls", None)
         if uc is not None and isinstance(o, (DictV, Seq, SetV)):
             if name in o.ufields:
@@ -1703,6 +1775,8 @@ class Interp:
                 d, owner = v.meta.lookup(dn)
                 if d is not None and not owner.builtin:
                     return self.truth(self.call(d, [v], {}))
+        if isinstance(v, ExtV) and getattr(v, "opaque_result", False):
+            raise Unknown(f"truth value of the result of the unmodelled external call {v.name}")
         if isinstance(v, (ClassV, Func, Bound, Builtin, Callback, ExtV, ModuleV, Prop, Tok)):
             return True
         if isinstance(v, Opaque) and v.truthy is not None:
@@ -2088,27 +2162,37 @@ class Interp:
     def ex_Starred(self, e, fr):
         raise Unknown("starred expression outside call/display")
 
+    def _yield_value(self, fr, v):
+        if fr.yields is None:
+            raise Unknown("yield outside generator evaluation")
+        fr.yields.append(v)
+        self.w.events.append(("yield", fr.func.qual if fr.func else "?", v))
+        g = fr.gen
+        if g is None:
+            return None         # a frame evaluated as a plain block by a harness: the yields are just collected
+        # hand control back to the consumer and wait for the next request
+        w = self.w
+        g.inner_depth = w.depth - g.resume_depth
+        w.depth = g.resume_depth
+        g.event = ("yield",)
+        g.to_cons.release()
+        g.to_gen.acquire()
+        if g.event == ("close",):
+            raise _GenClose()
+        return None
+
     def ex_Yield(self, e, fr):
         if fr.yields is None:
             raise Unknown("yield outside generator evaluation")
-        fr.yields.append(self.ev(e.value, fr) if e.value is not None else None)
-        self.w.events.append(("yield", fr.func.qual if fr.func else "?", fr.yields[-1]))
-        return None
+        return self._yield_value(fr, self.ev(e.value, fr) if e.value is not None else None)
 
     def ex_YieldFrom(self, e, fr):
         if fr.yields is None:
             raise Unknown("yield from outside generator evaluation")
         src = self.ev(e.value, fr)
-        if isinstance(src, GenV):
-            self.run_gen(src)
-            fr.yields.extend(src.trace[src.pos :])
-            src.pos = len(src.trace)
-            if src.exc is not None:
-                exc, src.exc = src.exc, None
-                raise exc
-            return src.ret
-        fr.yields.extend(self.iterate(src))
-        return None
+        for x in self.live_iter(src):
+            self._yield_value(fr, x)
+        return src.ret if isinstance(src, GenV) else None
 
     def ex_Call(self, e, fr):
         fe = e.func
@@ -2288,24 +2372,63 @@ class Interp:
             w.depth -= 1
         return None
 
-    def run_gen(self, g: GenV):
-        if g.trace is not None:
-            return
-        fr = g.frame
-        fr.yields = []
+    def _gen_main(self, g: GenV):
         w = self.w
         w.depth += 1
         try:
             if w.depth > w.depth_budget:
                 raise Raised(w.B.mkexc("RecursionError", "maximum recursion depth exceeded (abstract call depth budget)"))
-            self.exec_block(g.func.node.body, fr)
+            self.exec_block(g.func.node.body, g.frame)
+            ev = ("return", None)
         except _Return as r:
-            g.ret = r.v
-        except Raised as r:
-            g.exc = r
-        finally:
-            w.depth -= 1
-        g.trace = fr.yields
+            ev = ("return", r.v)
+        except _GenClose:
+            ev = ("return", None)
+        except BaseException as e:  # noqa: BLE001 - handed to the consumer, which re-raises it
+            ev = ("raise", e)
+        w.depth = g.resume_depth
+        g.event = ev
+        g.to_cons.release()
+
+    def gen_step(self, g: GenV):
+        """Run the generator up to its next yield.  -> True when a new element was appended to g.trace, False when it finished
+        (g.ret / g.exc hold how)."""
+        if g.done:
+            return False
+        w = self.w
+        g.resume_depth = w.depth
+        if g.thread is None:
+            import threading
+            _ensure_thread_stack()
+            g.trace = []
+            g.frame.yields = g.trace
+            g.frame.gen = g
+            g.to_gen, g.to_cons = threading.Semaphore(0), threading.Semaphore(0)
+            g.thread = threading.Thread(target=self._gen_main, args=(g,), daemon=True)
+            g.thread.start()
+        else:
+            w.depth += g.inner_depth
+            g.event = None
+            g.to_gen.release()
+        g.to_cons.acquire()
+        ev = g.event
+        if ev[0] == "yield":
+            return True
+        g.done = True
+        g.thread = None
+        if ev[0] == "return":
+            g.ret = ev[1]
+            return False
+        e = ev[1]
+        if isinstance(e, Raised):
+            g.exc = e
+            return False
+        raise e
+
+    def run_gen(self, g: GenV):
+        """run the generator to its end (for consumers that take everything at once)"""
+        while self.gen_step(g):
+            pass
 
     def iterate(self, v):
         """Concrete list of the elements of an abstract iterable (Unknown for opaque segments)."""
